@@ -20,14 +20,14 @@ set_option maxRecDepth 10000
 namespace RenetVerif.SrcTie
 open RenetVerif RenetVerif.SrcEquiv RenetVerif.RustSem RenetVerif.Netcode
 
-/-- `Packet::encode` into ANY byte buffer (`cap` = its length, stale contents allowed), for every packet, with or
+/-- `Packet::encode` into ANY buffer (`cap` = its length; stale contents — any numbers — allowed), for every packet, with or
     without key: the model's bytes at the front of the buffer and their number; the model's error otherwise
     (`IoError` for a buffer that is too small — also for the tag —, `UnavailablePrivateKey`).  Never panics. -/
-theorem nc_packet_encode (a : AEAD) (hl : a.Laws) (p : Netcode.Packet) (bufB : Bytes) (hcap : bufB.length + 16 < 2 ^ 64)
+theorem nc_packet_encode (a : AEAD) (hl : a.Laws) (p : Netcode.Packet) (buffer : List Nat) (hcap : buffer.length + 16 < 2 ^ 64)
     (pid : Nat) (crypto : Option (Nat × Bytes)) :
-    EncOut bufB.length (Netcode.Packet.encode a p bufB.length pid crypto)
-      (@Src.renetcode.packet.Packet.encode (aeadOf a) (reprNP p) (toNats bufB) pid (crypto.map fun x => (x.1, toNats x.2))) :=
-  packet_encode_eq a hl p bufB hcap pid crypto
+    EncOut buffer.length (Netcode.Packet.encode a p buffer.length pid crypto)
+      (@Src.renetcode.packet.Packet.encode (aeadOf a) (reprNP p) buffer pid (crypto.map fun x => (x.1, toNats x.2))) :=
+  packet_encode_eq a hl p buffer hcap pid crypto
 
 /-- `Packet::decode` of EVERY byte sequence, with or without key / replay window: the model's packet and sequence or
     the model's error (`PacketTooSmall`, `InvalidPacketType`, `UnavailablePrivateKey`, `IoError`, `DuplicatedSequence`,
